@@ -20,6 +20,19 @@ Theorem call_is_spec : forall m l args p, spec_call m l args = Some p -> call m 
 Proof. exact call_is_spec_l. Qed.
 Print Assumptions call_is_spec.
 
+(* arguments supplied through ...spread, ANYWHERE in the argument list: the call is the call on the
+   flattened list — a spread contributes its elements in place, whatever precedes or follows it
+   (so $a->push(...$xs, 10) pushes the elements of $xs and then 10); call_is_spec applies to
+   `call m l (flatten_args items)` *)
+Theorem flatten_app : forall a b, flatten_args (a ++ b) = (flatten_args a ++ flatten_args b)%list.
+Proof. exact flatten_app_l. Qed.
+Theorem flatten_plain : forall es, flatten_args (map APlain es) = es.
+Proof. exact flatten_plain_l. Qed.
+Theorem flatten_spread_anywhere : forall pre xs post,
+  flatten_args (map APlain pre ++ ASpread (EArr xs) :: map APlain post) = (pre ++ xs ++ post)%list.
+Proof. exact flatten_spread_anywhere_l. Qed.
+Print Assumptions flatten_spread_anywhere.
+
 (* "every combination of supplied and omitted arguments" written with NAMED arguments
    ($a->slice(end: 2)): when the binder accepts the call, every positional argument stays where it
    was, every  name: v  arrives at the position of the single (non-variadic) parameter called
